@@ -143,7 +143,7 @@ var errInjectedWrap = errors.New("injected")
 // corrFailfs: FailFS with no failure function ≟ its base (twin instance), and single-fault plans.
 func corrFailfs(seed uint64, tier string, replay []string) *lib.Result {
 	res := &lib.Result{Property: "C12",
-		Rule: "random histories through FailFS over MemFS, in lockstep with a twin MemFS driven directly: (1) no failure function: outcomes and node graphs equal after every call; (2) for every history every plan 'fail the k-th consulted primitive' (k over all consultations of the history, exhaustive per history): the failing call returns exactly the injected error and leaves the base untouched, earlier calls behave as on the base; (3) ReadOnlyFunc: the base never changes; (5) every composite call of the history (Create, WriteFile, ReadFile, ReadDir, MkdirTemp) that succeeds without faults is re-run with EVERY invocation of a primitive it is built on (Mkdir / OpenFile / FileWrite / FileRead / FileReadDir) made to fail: it must return the injected error, and leave the base unchanged when the primitive is its first; (4) announcement: with a second FailFS between the wrapper and the base, the primitives that reach the lower layer during each call (temp-name calls included) are exactly those shown to the upper failure function; a case is one call under one plan; distinct non-trivial = distinct (call kind, outcome, plan kind)"}
+		Rule: "random histories through FailFS over MemFS, in lockstep with a twin MemFS driven directly: (1) no failure function: outcomes and node graphs equal after every call; (2) for every history every plan 'fail the k-th consulted primitive' (k over all consultations of the history, exhaustive per history): the failing call returns exactly the injected error and leaves the base untouched, earlier calls behave as on the base, and when the failed primitive is the first of its call all LATER calls (on handles too) behave as in the history without that call; (3) ReadOnlyFunc: the base never changes; (5) every composite call of the history (Create, WriteFile, ReadFile, ReadDir, MkdirTemp) that succeeds without faults is re-run with EVERY invocation of a primitive it is built on (Mkdir / OpenFile / FileWrite / FileRead / FileReadDir) made to fail: it must return the injected error, and leave the base unchanged when the primitive is its first; (4) announcement: with a second FailFS between the wrapper and the base, the primitives that reach the lower layer during each call (temp-name calls included) are exactly those shown to the upper failure function; a case is one call under one plan; distinct non-trivial = distinct (call kind, outcome, plan kind)"}
 	st := lib.NewStats()
 	nh, nl := 60, 25
 	if tier == "thorough" {
@@ -181,6 +181,12 @@ func corrFailfs(seed uint64, tier string, replay []string) *lib.Result {
 					g.open = append(g.open, atoiS(strings.Fields(o)[2]))
 				}
 				hist = append(hist, l)
+				if f[2] == "file" && len(f) > 4 && f[4] == "close" {
+					// the handle is used once more after its Close: a Close that was refused leaves it open
+					probe := fmt.Sprintf("fs 0 file %s %s", f[3], lib.Pick(gr, []string{"stat", "read 3", "seek 0 1"}))
+					sg.call(probe)
+					hist = append(hist, probe)
+				}
 			}
 			// every history ends with a read of the file that is longer than ReadFile's first buffer
 			hist = append(hist, "fs 0 readfile "+lib.Hex("/a/big"))
@@ -277,6 +283,29 @@ func corrFailfs(seed uint64, tier string, replay []string) *lib.Result {
 				if o2[i] != touts[i] {
 					report("failfs.before-fault", fmt.Sprintf("call %q before the injected fault differs from the base", hist[i]), hist[:i+1], o2[i], touts[i])
 					break
+				}
+			}
+			// a call refused at its FIRST primitive did not happen: everything after it (handles included) behaves as
+			// in the history without that call
+			if firstOfCall && strings.Contains(o2[at], "injected") {
+				t2 := memfs.New()
+				prefill(t2, lib.NewRng(1))
+				tw2 := newFsOn(t2)
+				for i, l := range hist {
+					if i == at {
+						continue
+					}
+					to := tw2.call(l)
+					if i < at {
+						continue
+					}
+					if i >= len(o2) {
+						break
+					}
+					if o2[i] != to || normMtime(d2[i], map[int64]bool{}) != normMtime(rawDump(t2), map[int64]bool{}) {
+						report("failfs.after-fault."+f[2]+"."+fn, fmt.Sprintf("the call %q was refused at its first primitive (%s) and yet had an effect: the later call %q answers %q, and %q in the history without the refused call", hist[at], fn, l, o2[i], to), hist[:i+1], fmt.Sprintf("plan: fail consultation %d", p), o2[i], to)
+						break
+					}
 				}
 			}
 		}
